@@ -528,6 +528,7 @@ package router
 //@   callsite asyncSingleFlightPrefetch: [C19,C07:refresh-for-the-group-of-this-client] arg2 == rc.RemoteAddr.ip
 //@   callsite forward: [C12,C07:forwarded-on-behalf-of-this-client] arg4 == rc.RemoteAddr.ip
 //@   callsite Store?: [C07:stored-for-the-group-of-this-client] arg2 == rc.RemoteAddr.ip && arg1 == q
+//@   callsite Store?: [C07:what-is-stored-is-the-answer-that-is-served] arg0 == r.cache && arg3 == rc.Response.Msg
 //@   callsite limiterAllowN: [C15:cost-charged-to-the-client] arg1 == rc.RemoteAddr.ip
 //@   callsite needPrefetch: [C19:window-of-the-entry-hit] gHit != nil && arg0 == gStored && arg1 == gExp
 //@   callsite forward: [C10:selected-upstream] firstApplies(r, q.Name, rc.Response.RuleIdx) && r.rules[rc.Response.RuleIdx].reject == 0 && arg2 == r.rules[rc.Response.RuleIdx].upstream && arg3 == q
@@ -719,8 +720,13 @@ package router
 //@   oncall Store: nStore = nStore + 1
 //@   modifies nothing
 //@   ensures [C08:failed-refresh-not-stored] fwdErr != nil ==> nStore == 0
+//@   ghost gResp *dnsmsg.Msg = nil
+//@   aftercall forward: gResp = ret0
 //@   callsite forward: [C10:prefetch-same-upstream] arg2 == u && arg3 == q
+//@   callsite forward: [C12,C07:refresh-on-behalf-of-the-same-client] arg4 == remoteAddr
 //@   callsite Store: [C19:store-refreshed] arg1 == q
+//@   callsite Store: [C19,C07:the-refreshed-answer-for-the-group-of-that-client] arg0 == r.cache && arg2 == remoteAddr && arg3 == gResp
+//@   ensures [C19:a-successful-refresh-is-stored-once] fwdErr == nil ==> nStore == 1
 
 // ---- rule.go / router.go start-up (C10) -------------------------------------------------------
 
